@@ -1,3 +1,313 @@
+//! Response body readers: C07 (chunked), C08 (length- and close-delimited).
 use super::Ctx;
-pub fn c07(_cx: &mut Ctx) {}
-pub fn c08(_cx: &mut Ctx) {}
+use crate::exec::hx;
+use crate::rng::Rng;
+
+pub const NEXT: &[u8] = b"HTTP/1.1 200 OK\r\nContent-Length: 0\r\n\r\n";
+
+/// Drive a fresh GET flow to RecvBody with the given response head. Returns false if not there.
+pub fn to_recv_body(cx: &mut Ctx, method: &str, head: &[u8]) -> bool {
+    cx.rec.new_flow(&format!("{} HTTP/1.1 http://a.test/p 0", method));
+    cx.op("proceed");
+    cx.op("write 4096");
+    cx.op("proceed");
+    cx.op(&format!("resp {}", hx(head)));
+    cx.op("proceed");
+    cx.rec.state() == "recvBody"
+}
+
+/// Read a body under a schedule. `arrivals` are cumulative counts of stream bytes that have arrived;
+/// after each arrival the caller reads until a read makes no progress (re-presenting the
+/// unconsumed bytes, as a real caller does). Returns total consumed.
+pub fn read_schedule(cx: &mut Ctx, stream: &[u8], arrivals: &[usize], caps: &mut dyn FnMut() -> usize, ask: bool) -> usize {
+    let mut off = 0usize;
+    let mut reads = 0;
+    for &arr in arrivals {
+        let arr = arr.min(stream.len());
+        loop {
+            if off > arr { break; }
+            let cap = caps();
+            let res = cx.op(&format!("bread {} {}", hx(&stream[off..arr]), cap));
+            reads += 1;
+            let p: Vec<&str> = res.split(' ').collect();
+            if p[0] != "bytes" { return off; }
+            let i: usize = p[1].parse().unwrap();
+            let produced = p[2] != "-";
+            off += i;
+            let can = cx.op("canproceed");
+            if ask { cx.op("boundary"); }
+            if (i == 0 && !produced) || reads > 20000 { break; }
+            if can == "bool true" && off >= arr { break; }
+        }
+    }
+    off
+}
+
+pub struct Coding {
+    pub bytes: Vec<u8>,
+}
+
+fn size_line(rng: &mut Rng, n: usize, style: usize) -> Vec<u8> {
+    let mut s = match style % 4 {
+        0 => format!("{:x}", n),
+        1 => format!("{:X}", n),
+        2 => format!("0{:x}", n),
+        _ => format!("000{:X}", n),
+    };
+    match (style / 4) % 3 {
+        1 => s.push_str(";x=1"),
+        2 => s.push_str(&format!(";{}", "e".repeat(rng.below(6)))),
+        _ => {}
+    }
+    // the whole line stays within the 20 byte sanity limit
+    if s.len() > 20 { s.truncate(20); }
+    let mut v = s.into_bytes();
+    v.extend_from_slice(b"\r\n");
+    v
+}
+
+pub fn make_coding(rng: &mut Rng, sizes: &[usize], styles: &[usize], trailers: usize, last_style: usize) -> Vec<u8> {
+    let mut s = Vec::new();
+    let mut k = 0u8;
+    for (i, &n) in sizes.iter().enumerate() {
+        s.extend_from_slice(&size_line(rng, n, styles[i % styles.len()]));
+        for j in 0..n {
+            // payload includes CR and LF and digits
+            let b = match (j + k as usize) % 7 { 0 => b'\r', 1 => b'\n', 2 => b'0', 3 => b';', _ => b'a' + (j % 23) as u8 };
+            s.push(b);
+        }
+        k = k.wrapping_add(3);
+        s.extend_from_slice(b"\r\n");
+    }
+    s.extend_from_slice(&size_line(rng, 0, last_style));
+    for t in 0..trailers {
+        s.extend_from_slice(format!("T{}: v{}\r\n", t, t).as_bytes());
+    }
+    s.extend_from_slice(b"\r\n");
+    s
+}
+
+const CHUNKED_HEAD: &[u8] = b"HTTP/1.1 200 OK\r\nTransfer-Encoding: chunked\r\n\r\n";
+
+fn one_c07(cx: &mut Ctx, coding: &[u8], arrivals: &[usize], caps: &mut dyn FnMut() -> usize, stop: Option<bool>) {
+    if !to_recv_body(cx, "GET", CHUNKED_HEAD) { return; }
+    cx.meta(&format!("body-stream {}", hx(coding)));
+    let mut stream = coding.to_vec();
+    stream.extend_from_slice(NEXT);
+    if let Some(b) = stop { cx.op(&format!("stopb {}", if b { 1 } else { 0 })); }
+    let mut arr = arrivals.to_vec();
+    arr.push(stream.len());
+    let used = read_schedule(cx, &stream, &arr, caps, stop == Some(true));
+    cx.meta(&format!("consumed {}", used));
+    cx.op("canproceed");
+    cx.op("proceed");
+}
+
+pub fn c07(cx: &mut Ctx) {
+    let mut r0 = Rng::for_case(cx.seed, 999_999);
+    // exhaustive small scope: <=2 chunks of sizes {1,2,3}, styles, 0..2 trailers; all single and double cuts
+    let small_sizes: Vec<Vec<usize>> = vec![vec![], vec![1], vec![2], vec![3], vec![1, 2], vec![3, 1], vec![2, 2, 1]];
+    for sizes in &small_sizes {
+        for trailers in 0..=2usize {
+            for style in [0usize, 2, 5, 9] {
+                let coding = make_coding(&mut r0, sizes, &[style, style + 1], trailers, style / 2);
+                let total = coding.len() + 3;
+                let caps_set: &[usize] = if cx.thorough { &[0, 1, 2, 3, 4, 1000] } else { &[1, 3, 1000] };
+                for &cap in caps_set {
+                    for stop in [None, Some(true)] {
+                        // single cuts
+                        for c1 in 0..=total {
+                            if !cx.thorough && (c1 + style + cap) % 2 == 1 { continue; }
+                            cx.case("cut1");
+                            one_c07(cx, &coding, &[c1], &mut || cap, stop);
+                        }
+                    }
+                }
+                // double cuts, large output and a 2-byte output
+                let step = if cx.thorough { 1 } else { 3 };
+                let mut c1 = 0;
+                while c1 <= total {
+                    let mut c2 = c1;
+                    while c2 <= total {
+                        cx.case("cut2");
+                        one_c07(cx, &coding, &[c1, c2], &mut || 1000, if (c1 + c2) % 2 == 0 { None } else { Some(true) });
+                        c2 += step;
+                    }
+                    c1 += step;
+                }
+                // one byte at a time
+                cx.case("bytewise");
+                let arr: Vec<usize> = (1..=total).collect();
+                one_c07(cx, &coding, &arr, &mut || 2, Some(style % 4 == 0));
+            }
+        }
+    }
+    // hex-digit boundaries
+    for n in [15usize, 16, 17, 255, 256, 4095, 4096] {
+        for style in [0usize, 1, 2, 7] {
+            let coding = make_coding(&mut r0, &[n, 1], &[style], style % 2, 0);
+            for cut in [0usize, 1, 2, 3, 4, 5, n, n + 3, n + 4, n + 5, n + 6, n + 7, coding.len() - 1, coding.len()] {
+                cx.case("hexb");
+                let cap = if cut % 2 == 0 { 100000 } else { n.max(2) - 1 };
+                one_c07(cx, &coding, &[cut], &mut || cap, if cut % 3 == 0 { Some(true) } else { None });
+            }
+        }
+    }
+    // random codings and schedules
+    let n = if cx.thorough { 6000 } else { 500 };
+    for _ in 0..n {
+        let mut r = cx.case("rnd");
+        let k = r.below(5);
+        let sizes: Vec<usize> = (0..k).map(|_| if r.chance(1, 12) { r.range(200, 70000) } else { r.range(1, 40) }).collect();
+        let styles: Vec<usize> = (0..3).map(|_| r.below(12)).collect();
+        let trailers = r.below(3);
+        let last_style = r.below(12);
+        let coding = make_coding(&mut r, &sizes, &styles, trailers, last_style);
+        let big = coding.len() > 2000;
+        let total = coding.len() + NEXT.len();
+        let ncuts = if big { r.below(3) } else { r.below(8) };
+        let mut arr: Vec<usize> = (0..ncuts).map(|_| r.below(total + 1)).collect();
+        arr.sort();
+        let capmode = r.below(4);
+        let fixed = *r.pick(&[1usize, 2, 3, 5, 7, 64, 100000]);
+        let mut rr = Rng(r.next() | 1);
+        let stop = match r.below(3) { 0 => None, 1 => Some(true), _ => Some(false) };
+        let mut capf = move || -> usize {
+            if big { return 100000; }
+            match capmode { 0 => fixed, 1 => 1 + rr.below(9), 2 => 100000, _ => rr.below(4) + 1 }
+        };
+        one_c07(cx, &coding, &arr, &mut capf, stop);
+    }
+    // toggling boundary stop mid-body
+    for _ in 0..(if cx.thorough { 300 } else { 40 }) {
+        let mut r = cx.case("toggle");
+        let sizes: Vec<usize> = (0..r.range(2, 5)).map(|_| r.range(1, 9)).collect();
+        let ntr = r.below(2);
+        let coding = make_coding(&mut r, &sizes, &[0, 5], ntr, 0);
+        if !to_recv_body(cx, "GET", CHUNKED_HEAD) { continue; }
+        cx.meta(&format!("body-stream {}", hx(&coding)));
+        let mut stream = coding.clone();
+        stream.extend_from_slice(NEXT);
+        let mut off = 0;
+        for _ in 0..200 {
+            if r.chance(1, 4) { cx.op(&format!("stopb {}", r.below(2))); }
+            let upto = (off + r.range(0, 12)).min(stream.len());
+            let res = cx.op(&format!("bread {} {}", hx(&stream[off..upto]), r.range(1, 6)));
+            let p: Vec<&str> = res.split(' ').collect();
+            if p[0] != "bytes" { break; }
+            off += p[1].parse::<usize>().unwrap();
+            cx.op("boundary");
+            if cx.op("canproceed") == "bool true" { break; }
+        }
+        cx.meta(&format!("consumed {}", off));
+        cx.op("proceed");
+    }
+}
+
+pub fn c08(cx: &mut Ctx) {
+    // length-delimited: N small exhaustive, cuts and caps
+    let nmax = if cx.thorough { 24 } else { 9 };
+    for n in 0..=nmax {
+        let body: Vec<u8> = (0..n).map(|i| b'A' + (i % 26) as u8).collect();
+        let head = format!("HTTP/1.1 200 OK\r\nContent-Length: {}\r\n\r\n", n).into_bytes();
+        let mut stream = body.clone();
+        stream.extend_from_slice(NEXT);
+        for cap in [0usize, 1, 2, 5, 1000] {
+            for c1 in 0..=(n + 2) {
+                cx.case("len");
+                if !to_recv_body(cx, "GET", &head) {
+                    // N = 0 goes straight to cleanup: there is no body state
+                    cx.op("close?");
+                    continue;
+                }
+                cx.meta(&format!("len {} {}", n, hx(&body)));
+                cx.op("mode");
+                let used = read_schedule(cx, &stream, &[c1, stream.len()], &mut || cap, false);
+                cx.meta(&format!("consumed {}", used));
+                // reads after the end
+                cx.op(&format!("bread {} 10", hx(&stream[used.min(stream.len())..])));
+                cx.op("canproceed");
+                cx.op("proceed");
+                cx.op("close?");
+            }
+        }
+    }
+    // large N with windows much smaller than N
+    for n in [65535u64, 65536, 70000, 4294967297, 18446744073709551615] {
+        for _ in 0..3 {
+            let mut r = cx.case("lenbig");
+            let head = format!("HTTP/1.1 200 OK\r\nContent-Length: {}\r\n\r\n", n).into_bytes();
+            if !to_recv_body(cx, "GET", &head) { continue; }
+            cx.meta(&format!("lenbig {}", n));
+            cx.op("mode");
+            let mut done: u64 = 0;
+            for _ in 0..r.range(2, 6) {
+                let w = r.range(0, 3000);
+                let cap = r.range(0, 4000);
+                let win: Vec<u8> = (0..w).map(|i| ((done as usize + i) % 251) as u8).collect();
+                let res = cx.op(&format!("bread {} {}", hx(&win), cap));
+                let p: Vec<&str> = res.split(' ').collect();
+                if p[0] == "bytes" { done += p[1].parse::<u64>().unwrap(); }
+                cx.op("canproceed");
+            }
+            if n <= 70000 {
+                // finish it, with trailing bytes in the window
+                let left = (n - done) as usize;
+                let mut win: Vec<u8> = (0..left).map(|i| ((done as usize + i) % 251) as u8).collect();
+                win.extend_from_slice(NEXT);
+                cx.op(&format!("bread {} {}", hx(&win), left + 50));
+                cx.op("canproceed");
+                cx.op(&format!("bread {} 10", hx(NEXT)));
+            }
+            cx.op("proceed");
+        }
+    }
+    // close-delimited: every offered byte passes through, may proceed at any time, always must-close
+    let heads: Vec<&[u8]> = vec![b"HTTP/1.1 200 OK\r\n\r\n", b"HTTP/1.0 200 OK\r\n\r\n", b"HTTP/1.0 200 OK\r\nTransfer-Encoding: chunked\r\n\r\n", b"HTTP/1.1 404 Not Found\r\nX: y\r\n\r\n"];
+    for head in heads {
+        for reads in 0..=3usize {
+            for cap in [0usize, 1, 4, 100] {
+                let mut r = cx.case("close");
+                if !to_recv_body(cx, "GET", head) { continue; }
+                cx.meta("close");
+                cx.op("mode");
+                cx.op("canproceed");
+                for _ in 0..reads {
+                    let w = r.range(0, 12);
+                    let win: Vec<u8> = (0..w).map(|_| *r.pick(b"ab\r\n0HTP/1. ")).collect();
+                    cx.op(&format!("bread {} {}", hx(&win), cap));
+                    cx.op("canproceed");
+                }
+                cx.op("proceed");
+                cx.op("close?");
+                cx.op("reason");
+            }
+        }
+    }
+    // random length-delimited
+    let cnt = if cx.thorough { 3000 } else { 300 };
+    for _ in 0..cnt {
+        let mut r = cx.case("lenrnd");
+        let n = if r.chance(1, 6) { r.range(100, 70000) } else { r.range(0, 64) };
+        let body: Vec<u8> = (0..n).map(|i| ((i * 7) % 251) as u8).collect();
+        let ver = if r.chance(1, 4) { "HTTP/1.0" } else { "HTTP/1.1" };
+        let head = format!("{} 200 OK\r\ncontent-length: {}\r\n\r\n", ver, n).into_bytes();
+        let mut stream = body.clone();
+        stream.extend_from_slice(NEXT);
+        if !to_recv_body(cx, "GET", &head) { cx.op("close?"); continue; }
+        cx.meta(&format!("len {} {}", n, if n <= 64 { hx(&body) } else { "big".into() }));
+        let big = n > 300;
+        let ncuts = if big { r.below(3) } else { r.below(6) };
+        let mut arr: Vec<usize> = (0..ncuts).map(|_| r.below(stream.len() + 1)).collect();
+        arr.sort();
+        arr.push(stream.len());
+        let fixed = *r.pick(&[1usize, 3, 17, 100000]);
+        let mut rr = Rng(r.next() | 1);
+        let mode = r.below(3);
+        let used = read_schedule(cx, &stream, &arr, &mut || if big { 100000 } else if mode == 0 { fixed } else { rr.below(9) }, false);
+        cx.meta(&format!("consumed {}", used));
+        cx.op("canproceed");
+        cx.op("proceed");
+        cx.op("close?");
+    }
+}
